@@ -244,3 +244,44 @@ def c01_fee(run):
 
 def replay_fee(name, base_e, mult_e, var_e, total_e):
     return None
+
+
+@obligation('C01', 'C01-3 pay_fee debits the signer only and routes the same amount to the block fees')
+def c01_pay_fee(run):
+    ex, W = fee_engine()
+    for a_ in COMMON_ASSUME:
+        run.assume(a_)
+    run.bound(state='arbitrary symbolic chain state', actions=['Transfer', 'BridgeLock', 'ValidatorUpdate'], signer='arbitrary [u8;20]', unroll='loop-free')
+    f = ex.find(r'^pay_fee$')
+    for name in ('Transfer', 'BridgeLock', 'ValidatorUpdate'):
+        w0 = initial_world()
+        act = Obj(ACTION_PATH + name); signer = z3.BitVec('tx_signer', 160); pos = z3.BitVec('position', 64)
+        st = ex.start(f, [B.cell(act), B.cell(signer), pos, B.cell(Obj('S', kind='cell'))], world=dict(w0, generic_F=name, block_fees=[]))
+        n_ok = 0
+        for i, p in enumerate(run.explore(ex, st, poll=True)):
+            if p.kind != 'return':
+                run.prove(f'{name}: no panic [path {i}]', p.pc, z3.BoolVal(False), detail=p.info); continue
+            kind, r = poll_result(p)
+            fees = p.world['block_fees']; b0 = w0['balance']
+            run.sample({'action': name, 'path': i, 'result': kind, 'block_fee_entries': len(fees), 'balance_writes': len(balance_writes(p))})
+            if kind == 'Ok':
+                n_ok += 1
+                if not fees:
+                    run.prove(f'{name}: free action => nothing written [path {i}]', p.pc, unchanged(w0, p.world)); continue
+                (asset, amount, position), = fees if len(fees) == 1 else ((None, None, None),)
+                if asset is None:
+                    run.prove(f'{name}: exactly one block-fee entry [path {i}]', p.pc, z3.BoolVal(False)); continue
+                k = bal_key(signer, asset)
+                me = ex.read(p, p.roots['args'][0].loc)
+                fa = W.asset(p, B.fld(ex, p, me, 'fee_asset', 'Denom'))
+                run.prove(f'{name}: Ok => signer (and only the signer) debited exactly the fee that was added to the block fees, in the fee asset [path {i}]', p.pc,
+                          z3.And(asset == fa, p.world['balance'] == z3.Store(b0, k, z3.Select(b0, k) - amount), z3.UGE(z3.Select(b0, k), amount), position == pos,
+                                 unchanged(w0, p.world, except_=('balance', 'block_fees'))))
+            else:
+                # the error propagates and the transaction's delta is dropped (C03-2); still: no balance other than the signer's may have been touched
+                a = z3.BitVec('any_addr', 160); s = z3.BitVec('any_asset', 256); kk = bal_key(a, s)
+                run.prove(f'{name}: Err => no balance other than the signer\'s touched [path {i}]', p.pc,
+                          z3.Implies(z3.Select(p.world['balance'], kk) != z3.Select(b0, kk), a == signer))
+        if not n_ok:
+            raise Inconclusive('vacuity: no Ok path for ' + name)
+    run.require_reached(*run.cur.reach)
